@@ -238,7 +238,14 @@ where
                 debug!(
                     channel_filter_key = %key,
                     "All channels dropped");
-                self_.key_counts.remove(&key);
+                // A channel with the same key may have been admitted after this notification
+                // was sent (it then owns a fresh tracker stored under the key). Forget the key
+                // only if no channel for it is alive anymore.
+                if let Entry::Occupied(entry) = self_.key_counts.entry(key) {
+                    if entry.get().strong_count() == 0 {
+                        entry.remove();
+                    }
+                }
                 self_.key_counts.compact(0.1);
                 Poll::Ready(())
             }
